@@ -36,7 +36,7 @@ type oblReport struct {
 
 type knownFinding struct {
 	Prop, Obligation, Clause, What string
-	Fixed                           bool
+	Fixed                          bool
 }
 
 func loadKnownFindings(path string) []knownFinding {
